@@ -332,6 +332,10 @@ bool Terminal::Impl::executeRunHistoryCmd(SessionContext *s, const Args &args)
 {
     string sub_cmd = args[0].substr(1);
     if (sub_cmd == "!") {
+        if (s->history.empty()) {   //! nothing to run again
+            s->wp_conn->send(s->token, "Error: index out of range.\r\n");
+            return false;
+        }
         s->curr_input = s->history.back();
         return execute(s);
     }
@@ -345,7 +349,8 @@ bool Terminal::Impl::executeRunHistoryCmd(SessionContext *s, const Args &args)
                 is_index_valid = true;
             }
         } else {
-            if (s->history.size() >= static_cast<size_t>(-index)) {
+            //! negate in 64 bits: -index overflows for INT_MIN
+            if (s->history.size() >= static_cast<size_t>(-static_cast<long long>(index))) {
                 s->curr_input = s->history.at(s->history.size() + index);
                 is_index_valid = true;
             }
@@ -358,6 +363,8 @@ bool Terminal::Impl::executeRunHistoryCmd(SessionContext *s, const Args &args)
             s->wp_conn->send(s->token, "Error: index out of range.\r\n");
     } catch (const invalid_argument &e) {
         s->wp_conn->send(s->token, "Error: parse index fail.\r\n");
+    } catch (const out_of_range &e) {   //! std::stoi() on a number that does not fit an int
+        s->wp_conn->send(s->token, "Error: index out of range.\r\n");
     }
 
     return false;
